@@ -33,7 +33,13 @@ check_content(ops, resources, doc) -> [(clause, detail)]   clauses: 'balance-q',
                     'balance-mc', 'nest-mc-text', 'unknown-operator', 'arity', 'operand-type', 'non-finite',
                     'resource:<Category>', 'text-op-outside-BT', 'special-gs-inside-BT'
 check_structure(doc) -> [(clause, detail)]   header, trailer /Size /Root, every Ref resolves, page tree shape
-                    (Type, Parent, Count, Kids), kinds of objects referenced from well-known keys
+                    (Type, Parent, Count, Kids), kinds of objects referenced from well-known keys, every reachable font
+                    dictionary (check_font), the /DA strings of form fields against /AcroForm /DR
+check_font(doc, ref, where) -> [(clause, detail)]   ISO 32000-1 9.6-9.9: Type0 -> DescendantFonts -> CIDFont ->
+                    FontDescriptor -> FontFile*, ToUnicode, W ; Type3 CharProcs/Encoding/Widths ; standard-14 Type1
+closure_facts(doc) -> [dict(where, defs={category: [names]}, uses=[(category, name)])] one entry per content
+                    stream (pages, form XObjects, tiling patterns, soft-mask groups, annotation appearances, Type3
+                    CharProcs), for the closure judge evaluated in Coq (model/C16Closure.v)
 """
 import re
 import zlib
@@ -1085,9 +1091,23 @@ def check_structure(doc):
                     rect = doc.resolve(ad.get('Rect'))
                     _expect(bad, isinstance(rect, list) and len(rect) == 4 and all(_is_num(x) for x in rect),
                             'page-annots', 'page %d annotation %r /Rect %r' % (i, a, rect))
-    # kinds of the resources of every content stream
+    # kinds of the resources of every content stream, and every font dictionary reachable from them
+    seen_fonts = set()
     for where, num, data, res in doc.walk_content_streams():
         bad.extend(check_resource_kinds(doc, res, where))
+        fonts = doc.resolve(res.get('Font')) if isinstance(res, dict) else None
+        for name, ref in (fonts.items() if isinstance(fonts, dict) else []):
+            key = (ref.num if isinstance(ref, Ref) else id(ref))
+            if key not in seen_fonts:
+                seen_fonts.add(key)
+                bad.extend(check_font(doc, ref, '%s /Font /%s' % (where, name)))
+    acro = doc.resolve(root.get('AcroForm'))
+    if isinstance(acro, dict):
+        dr = doc.resolve(acro.get('DR'))
+        if dr is not None:
+            bad.extend(check_resource_kinds(doc, dr, 'AcroForm/DR'))
+        for f in doc.resolve(acro.get('Fields')) or []:
+            bad.extend(check_field_da(doc, f, dr))
     bad.extend(('syntax', p) for p in doc.problems[n0:])
     return bad
 
@@ -1134,3 +1154,219 @@ def check_resource_kinds(doc, res, where=''):
             if not ok:
                 bad.append(('resource-kind', '%s: /%s /%s is not a valid %s object: %r' % (where, catname, name, catname, o if not isinstance(o, (dict, list)) else str(o)[:120])))
     return bad
+
+
+# ------------------------------------------------------------------------------------------------- fonts
+
+STANDARD_14 = {'Times-Roman', 'Times-Bold', 'Times-Italic', 'Times-BoldItalic', 'Helvetica', 'Helvetica-Bold',
+               'Helvetica-Oblique', 'Helvetica-BoldOblique', 'Courier', 'Courier-Bold', 'Courier-Oblique',
+               'Courier-BoldOblique', 'Symbol', 'ZapfDingbats'}
+
+
+def _check_descriptor(doc, fd_ref, where, bad, embedded_required=True):
+    fd = doc.resolve(fd_ref)
+    if not isinstance(fd, dict) or fd.get('Type') != 'FontDescriptor':
+        bad.append(('font', '%s: /FontDescriptor is %r' % (where, fd if not isinstance(fd, dict) else fd.get('Type'))))
+        return
+    if not isinstance(fd.get('FontName'), Name):
+        bad.append(('font', '%s: FontDescriptor without /FontName' % where))
+    for k in ('Flags',):
+        if not isinstance(doc.resolve(fd.get(k)), int):
+            bad.append(('font', '%s: FontDescriptor /%s is %r' % (where, k, fd.get(k))))
+    for k in ('ItalicAngle', 'Ascent', 'Descent', 'CapHeight', 'StemV'):
+        if k in fd and not _is_num(doc.resolve(fd[k])):
+            bad.append(('font', '%s: FontDescriptor /%s is %r' % (where, k, fd.get(k))))
+    bb = doc.resolve(fd.get('FontBBox'))
+    if not (isinstance(bb, list) and len(bb) == 4 and all(_is_num(x) for x in bb)):
+        bad.append(('font', '%s: FontDescriptor /FontBBox %r' % (where, bb)))
+    files = [k for k in ('FontFile', 'FontFile2', 'FontFile3') if k in fd]
+    if embedded_required and len(files) != 1:
+        bad.append(('font', '%s: FontDescriptor has %d font files %s' % (where, len(files), files)))
+    for k in files:
+        st = doc.resolve(fd[k])
+        if not isinstance(st, StreamObj):
+            bad.append(('font', '%s: /%s is not a stream' % (where, k)))
+        elif doc.stream_data(st) is None or not doc.stream_data(st):
+            bad.append(('font', '%s: /%s is empty or cannot be decoded' % (where, k)))
+    if 'CIDSet' in fd and not isinstance(doc.resolve(fd['CIDSet']), StreamObj):
+        bad.append(('font', '%s: /CIDSet is not a stream' % where))
+
+
+def _check_widths_array(w):
+    """/W of a CIDFont: c [w1 ... wn]  or  cfirst clast w"""
+    i = 0
+    while i < len(w):
+        if not (isinstance(w[i], int) and w[i] >= 0):
+            return False
+        if i + 1 < len(w) and isinstance(w[i + 1], list):
+            if not all(_is_num(x) for x in w[i + 1]):
+                return False
+            i += 2
+        elif i + 2 < len(w) and isinstance(w[i + 1], int) and _is_num(w[i + 2]):
+            i += 3
+        else:
+            return False
+    return True
+
+
+def check_font(doc, ref, where=''):
+    bad = []
+    f = doc.resolve(ref)
+    if not isinstance(f, dict) or f.get('Type') != 'Font':
+        return [('font', '%s: not a font dictionary: %r' % (where, f if not isinstance(f, dict) else f.get('Type')))]
+    sub = f.get('Subtype')
+    if 'ToUnicode' in f:
+        tu = doc.resolve(f['ToUnicode'])
+        data = doc.stream_data(tu) if isinstance(tu, StreamObj) else None
+        if data is None or b'begincmap' not in data or b'endcmap' not in data:
+            bad.append(('font', '%s: /ToUnicode is not a CMap stream' % where))
+        else:
+            for m in re.finditer(rb'(\d+) beginbfchar(.*?)endbfchar', data, re.S):
+                n = len(re.findall(rb'<[0-9A-Fa-f]*>\s*<[0-9A-Fa-f]*>', m.group(2)))
+                if n != int(m.group(1)) or n > 100:
+                    bad.append(('font', '%s: ToUnicode bfchar block announces %s entries, has %d' % (where, m.group(1).decode(), n)))
+    if sub == 'Type0':
+        if not isinstance(f.get('BaseFont'), Name):
+            bad.append(('font', '%s: Type0 without /BaseFont' % where))
+        if not isinstance(doc.resolve(f.get('Encoding')), (Name, StreamObj)):
+            bad.append(('font', '%s: Type0 /Encoding is %r' % (where, f.get('Encoding'))))
+        desc = doc.resolve(f.get('DescendantFonts'))
+        if not (isinstance(desc, list) and len(desc) == 1):
+            bad.append(('font', '%s: /DescendantFonts is %r' % (where, desc)))
+            return bad
+        cid = doc.resolve(desc[0])
+        if not (isinstance(cid, dict) and cid.get('Type') == 'Font' and cid.get('Subtype') in ('CIDFontType0', 'CIDFontType2')):
+            bad.append(('font', '%s: descendant font is %r' % (where, cid if not isinstance(cid, dict) else (cid.get('Type'), cid.get('Subtype')))))
+            return bad
+        csi = doc.resolve(cid.get('CIDSystemInfo'))
+        if not (isinstance(csi, dict) and isinstance(csi.get('Registry'), PDFString) and isinstance(csi.get('Ordering'), PDFString)
+                and isinstance(csi.get('Supplement'), int)):
+            bad.append(('font', '%s: CIDFont /CIDSystemInfo %r' % (where, csi)))
+        if 'W' in cid:
+            w = doc.resolve(cid['W'])
+            if not (isinstance(w, list) and _check_widths_array([doc.resolve(x) for x in w])):
+                bad.append(('font', '%s: CIDFont /W is malformed: %r' % (where, str(w)[:100])))
+        if 'CIDToGIDMap' in cid and not isinstance(doc.resolve(cid['CIDToGIDMap']), (Name, StreamObj)):
+            bad.append(('font', '%s: /CIDToGIDMap %r' % (where, cid['CIDToGIDMap'])))
+        if 'FontDescriptor' not in cid:
+            bad.append(('font', '%s: CIDFont without /FontDescriptor' % where))
+        else:
+            _check_descriptor(doc, cid['FontDescriptor'], where, bad)
+    elif sub == 'Type3':
+        cp = doc.resolve(f.get('CharProcs'))
+        enc = doc.resolve(f.get('Encoding'))
+        fm = doc.resolve(f.get('FontMatrix'))
+        bb = doc.resolve(f.get('FontBBox'))
+        if not (isinstance(fm, list) and len(fm) == 6 and all(_is_num(x) for x in fm)):
+            bad.append(('font', '%s: Type3 /FontMatrix %r' % (where, fm)))
+        if not (isinstance(bb, list) and len(bb) == 4 and all(_is_num(x) for x in bb)):
+            bad.append(('font', '%s: Type3 /FontBBox %r' % (where, bb)))
+        if not isinstance(cp, dict):
+            bad.append(('font', '%s: Type3 /CharProcs %r' % (where, type(cp).__name__)))
+            cp = {}
+        for g, st in cp.items():
+            if not isinstance(doc.resolve(st), StreamObj):
+                bad.append(('font', '%s: CharProc /%s is not a stream' % (where, g)))
+        if not isinstance(enc, (Name, dict)):
+            bad.append(('font', '%s: Type3 /Encoding %r' % (where, enc)))
+        elif isinstance(enc, dict):
+            diffs = doc.resolve(enc.get('Differences')) or []
+            for x in diffs:
+                if isinstance(x, Name) and str(x) not in cp:
+                    bad.append(('font', '%s: /Differences names /%s which has no CharProc' % (where, x)))
+                    break
+        fc, lc, ws = doc.resolve(f.get('FirstChar')), doc.resolve(f.get('LastChar')), doc.resolve(f.get('Widths'))
+        if not (isinstance(fc, int) and isinstance(lc, int) and isinstance(ws, list) and fc <= lc and len(ws) == lc - fc + 1
+                and all(_is_num(doc.resolve(x)) for x in ws)):
+            bad.append(('font', '%s: Type3 FirstChar %r LastChar %r and %s widths' % (where, fc, lc, len(ws) if isinstance(ws, list) else ws)))
+    elif sub in ('Type1', 'MMType1', 'TrueType'):
+        base = f.get('BaseFont')
+        if not isinstance(base, Name):
+            bad.append(('font', '%s: %s without /BaseFont' % (where, sub)))
+        elif not (sub == 'Type1' and str(base) in STANDARD_14):
+            if 'FontDescriptor' not in f:
+                bad.append(('font', '%s: %s font /%s is not a standard font and has no /FontDescriptor' % (where, sub, base)))
+            else:
+                _check_descriptor(doc, f['FontDescriptor'], where, bad, embedded_required=False)
+    else:
+        bad.append(('font', '%s: unknown font /Subtype %r' % (where, sub)))
+    return bad
+
+
+def check_field_da(doc, fref, dr, depth=0):
+    """the default appearance string of a form field names a font of /AcroForm /DR (ISO 32000-1 12.7.3.3)"""
+    bad = []
+    f = doc.resolve(fref)
+    if not isinstance(f, dict) or depth > 20:
+        return bad
+    da = f.get('DA')
+    if isinstance(da, PDFString):
+        try:
+            ops = tokenize_content(bytes(da))
+        except PDFError as exc:
+            return [('field-da', 'field %r: /DA does not tokenize: %s' % (fref, exc))]
+        fonts = doc.resolve(dr.get('Font')) if isinstance(dr, dict) else None
+        for op, args in ops:
+            if op == 'Tf' and len(args) == 2 and isinstance(args[0], Name):
+                if not isinstance(fonts, dict) or str(args[0]) not in fonts:
+                    bad.append(('resource:Font', 'field %r: /DA selects /%s which is not in /AcroForm /DR /Font %s' % (
+                        fref, args[0], sorted(fonts)[:8] if isinstance(fonts, dict) else fonts)))
+    for kid in doc.resolve(f.get('Kids')) or []:
+        bad.extend(check_field_da(doc, kid, dr, depth + 1))
+    return bad
+
+
+# ------------------------------------------------------------------------------ closure facts (for the Coq judge)
+
+USE_CATEGORY = {'Tf': ('Font', 0), 'Do': ('XObject', 0), 'gs': ('ExtGState', 0), 'sh': ('Shading', 0),
+                'cs': ('ColorSpace', 0), 'CS': ('ColorSpace', 0), 'BDC': ('Properties', 1), 'DP': ('Properties', 1)}
+CATEGORIES = ['Font', 'XObject', 'ExtGState', 'Shading', 'ColorSpace', 'Pattern', 'Properties']
+
+
+def uses_of(ops):
+    """[(category, name)] named by the operators of a tokenized content stream"""
+    out = []
+    for op, args in ops:
+        if op in USE_CATEGORY:
+            cat, idx = USE_CATEGORY[op]
+            if len(args) > idx and isinstance(args[idx], Name):
+                if cat == 'ColorSpace' and str(args[idx]) in DEVICE_SPACES:
+                    continue
+                out.append((cat, str(args[idx])))
+        elif op in ('scn', 'SCN') and args and isinstance(args[-1], Name):
+            out.append(('Pattern', str(args[-1])))
+    return out
+
+
+def closure_facts(doc):
+    facts = []
+    type3_done = set()
+    for where, num, data, res in doc.walk_content_streams():
+        defs = {}
+        for cat in CATEGORIES:
+            d = doc.resolve(res.get(cat)) if isinstance(res, dict) else None
+            defs[cat] = sorted(d) if isinstance(d, dict) else []
+        try:
+            ops = tokenize_content(data) if data is not None else []
+        except PDFError:
+            ops = []
+        facts.append({'where': where, 'defs': defs, 'uses': uses_of(ops)})
+        fonts = doc.resolve(res.get('Font')) if isinstance(res, dict) else None
+        for name, ref in (fonts.items() if isinstance(fonts, dict) else []):
+            f = doc.resolve(ref)
+            if isinstance(f, dict) and f.get('Subtype') == 'Type3' and id(f) not in type3_done:
+                type3_done.add(id(f))
+                fres = doc.resolve(f.get('Resources'))
+                fres = fres if isinstance(fres, dict) else res
+                for g, st in (doc.resolve(f.get('CharProcs')) or {}).items():
+                    d2 = doc.stream_data(st)
+                    try:
+                        ops2 = tokenize_content(d2) if d2 is not None else []
+                    except PDFError:
+                        ops2 = []
+                    defs2 = {}
+                    for cat in CATEGORIES:
+                        dd = doc.resolve(fres.get(cat)) if isinstance(fres, dict) else None
+                        defs2[cat] = sorted(dd) if isinstance(dd, dict) else []
+                    facts.append({'where': '%s>Font/%s/CharProcs/%s' % (where, name, g), 'defs': defs2, 'uses': uses_of(ops2)})
+    return facts
